@@ -199,6 +199,8 @@ type Checker struct {
 	// CheckInherited: judge "tokens inherited from the ring are kept" (stores that replace values; on the merging
 	// gossip store a concurrent conflict resolution may legitimately strip a token)
 	CheckInherited bool
+	// Stolen: identities from whose entry the environment took a token away (their inherited list cannot be kept)
+	Stolen map[string]bool
 	// Records, when set, replaces the recording store as the source of committed writes (e.g. a recording
 	// proxy in front of the gossip store)
 	Records []Record
@@ -463,7 +465,7 @@ func (c *Checker) Check() (findings []Finding, stats map[string]int) {
 				}
 			}
 			// (f') first ACTIVE version of an incarnation that found its complete token list in the ring
-			if ce.State == ring.ACTIVE && !activeSeen[v.Writer] && c.CheckInherited && len(w.InheritedTokens) > 0 && !c.ClaimVictims[own] {
+			if ce.State == ring.ACTIVE && !activeSeen[v.Writer] && c.CheckInherited && len(w.InheritedTokens) > 0 && !c.ClaimVictims[own] && !c.Stolen[own] {
 				stats["inherited_activations"]++
 				if fmt.Sprint(ce.Tokens) != fmt.Sprint(w.InheritedTokens) {
 					add("inherited-tokens-not-kept", fmt.Sprintf("%s found tokens %v in its ring entry when it started but became ACTIVE with %v", own, w.InheritedTokens, ce.Tokens), d(nil))
